@@ -1058,8 +1058,14 @@ def gen_trace(seed):
                 st["protect"] = True
             steps.append(st)
         elif k == "move":
-            steps.append({"op": "move", "base": [round(ro.uniform(-3, 3), 3) for _ in range(3)] + [round(ro.uniform(-1.5, 1.5), 3) for _ in range(3)],
-                          "stationary": ro.random() < 0.3, "rs": {"kinds": ["uniform"], "seed": ro.getrandbits(32)}})
+            stat = ro.random() < 0.3
+            if stat and ro.random() < 0.7:
+                # a small shift of the base from where the arm was built: the old tool pose stays within reach
+                b0 = list(spec.get("base") or [0.0] * 6)
+                base = [round(b0[i_] + ro.uniform(-0.3, 0.3), 3) for i_ in range(3)] + [round(b0[3 + i_] + ro.uniform(-0.2, 0.2), 3) for i_ in range(3)]
+            else:
+                base = [round(ro.uniform(-3, 3), 3) for _ in range(3)] + [round(ro.uniform(-1.5, 1.5), 3) for _ in range(3)]
+            steps.append({"op": "move", "base": base, "stationary": stat, "rs": {"kinds": ["uniform"], "seed": ro.getrandbits(32)}})
         elif k == "home":
             steps.append({"op": "home", "rel": [round(ro.uniform(-0.3, 0.3), 3) for _ in range(3)] + [round(ro.uniform(-0.5, 0.5), 3) for _ in range(3)]})
             if ro.random() < 0.7:
@@ -1126,7 +1132,7 @@ EXPECTED_PROBES = ["success_first_attempt", "success_on_restart", "success_on_re
                    "unreachable_goal_reported_failure", "solve_after_move_or_retool", "start_from_current_state",
                    "local_clause_applicable", "move_stationary_internal_ik", "goal_is_current_reported_pose",
                    "goal_is_stale_reported_pose", "arm_with_prismatic_joint", "returned_vector_edited_by_caller", "goal_object_moved_by_caller",
-                   "limits_changed_assign", "limits_changed_inplace"]
+                   "limits_changed_assign", "limits_changed_inplace", "move_stationary_kept_tool_pose", "move_stationary_reset_arm"]
 
 
 def warmup():
